@@ -1,4 +1,4 @@
-(* P_C05 — Polynomial division satisfies dividend = q * divisor + r and stops on a reduced remainder.
+(* P_C05 — Polynomial division TERMINATES, satisfies dividend = q * divisor + r and stops on a reduced remainder.
 
    Model/Divmod.v follows divmod.py (bridge lemma over its control flow, regenerated on every run):
    per element, sparse term lists for quotient, running dividend and divisor; the divisor's leading
@@ -10,7 +10,7 @@
        quotient, and with one indeterminate every term of r has lower degree than the divisor. *)
 From mathcomp Require Import all_ssreflect all_algebra.
 From SsrMultinomials Require Import mpoly.
-From NP Require Import Base Divmod DivmodP GenDivmod BridgeDivmod.
+From NP Require Import Base Divmod DivmodP DivmodTerm GenDivmod BridgeDivmod.
 Set Implicit Arguments. Unset Strict Implicit. Unset Printing Implicit Defensive.
 Import GRing.Theory.
 Local Open Scope ring_scope.
@@ -48,8 +48,30 @@ Theorem C05_univariate_degree fuel (fs gs : seq (spoly F)) out i (b a : nat) :
   lead (norm (nth [::] gs i)) = Some [:: b] -> [:: a] \in support (nth ([::], [::]) out i).2 -> (a < b)%N.
 Proof. exact: divmod_univariate_degree. Qed.
 
-(* the result is a fixed point: asking for more iterations changes nothing, and an exhausted budget
-   is reported as such, never as a result *)
+(* TERMINATION: for any number of elements and any dividends/divisors whose monomials all have one
+   width D (what alignment produces), some iteration budget suffices — by well-founded descent, in
+   the lexicographic product over the elements, of the largest dividend monomial divisible by the
+   divisor's leading monomial (numpy.lexsort order on monomials of width D is a well-order) *)
+Theorem C05_terminates D (fs gs : seq (spoly F)) :
+  all (wp D) fs -> all (wp D) gs -> exists fuel out, divmod fuel fs gs = Ok out.
+Proof. exact: divmod_terminates. Qed.
+
+Theorem C05_every_state_terminates D (es : seq (elem F)) :
+  all (we D) es -> exists fuel es', run fuel es = Ok es'.
+Proof. exact: run_terminates. Qed.
+
+(* each iteration strictly decreases the measure (the invariant behind termination) *)
+Theorem C05_iteration_decreases D (es : seq (elem F)) (e2 e1 : mono) :
+  all (we D) es -> candidate es = Some (e2, e1) ->
+  lexl (olt D) [seq mu (step_elem e2 e1 e) | e <- es] [seq mu e | e <- es].
+Proof. exact: step_decreases. Qed.
+
+(* the while-loop of the code is [run] with enough fuel: a larger budget gives the same result *)
+Theorem C05_budget_irrelevant fuel (es es' : seq (elem F)) k :
+  run fuel es = Ok es' -> run (fuel + k) es = Ok es'.
+Proof. exact: run_more. Qed.
+
+(* an exhausted budget is reported as such, never as a result *)
 Theorem C05_out_of_fuel_is_an_error (es : seq (elem F)) : run 0 es = Err OutOfFuel.
 Proof. by []. Qed.
 End C05.
@@ -72,5 +94,9 @@ Print Assumptions C05_step_invariant.
 Print Assumptions C05_remainder_reduced.
 Print Assumptions C05_constant_divisor.
 Print Assumptions C05_univariate_degree.
+Print Assumptions C05_terminates.
+Print Assumptions C05_every_state_terminates.
+Print Assumptions C05_iteration_decreases.
+Print Assumptions C05_budget_irrelevant.
 Print Assumptions C05_out_of_fuel_is_an_error.
 Print Assumptions C05_control_flow_of_the_source.
